@@ -35,11 +35,19 @@ YenKnown ==
       \/ (Ev.outcome = "ok" /\ "F-C13-e" \in Devs /\ Known("C13", "F-C13-e"))
 (* under the checks of C01 / C03 only the validity of every returned route (contiguous loop-free walk with
    correctly accumulated state and costs, incl. the re-oriented reverse half of single-via alternatives) is judged *)
-T_KResultRoutesOnly == /\ Ev.ev = "KResult" /\ ~Enforce("C13") /\ UNCHANGED <<scn, kq, remaining>> /\ Frozen
+Full == Enforce("C13") \/ Enforce("C10")
+T_KResultRoutesOnly == /\ Ev.ev = "KResult" /\ ~Full /\ UNCHANGED <<scn, kq, remaining>> /\ Frozen
                        /\ Ev.outcome = "ok" => Chk("C01/C03 every returned route is a valid walk with accumulated state", AllWrapped /\ AllValid(RoutesOfEv))
                        /\ accepted' = <<>> /\ kdone' = TRUE
-T_KResult == /\ Ev.ev = "KResult" /\ Enforce("C13") /\ UNCHANGED <<scn, kq, remaining>> /\ Frozen
-             /\ IF ~Reachable
+(* limits (C10): every sub-search of the alternatives algorithm meets the query's limits.  For single-via the two
+   sub-searches are the plain forward and reverse searches, whose outcomes under the limits are recorded from separate
+   plain runs: if one of them is stopped the whole query ends 'terminated', otherwise the limits change nothing. *)
+Limited == scn.itl >= 0 \/ scn.szl >= 0
+SubSearchStopped == Limited /\ (Ev.fwd_out = "terminated" \/ (Ev.fwd_out = "ok" /\ Ev.rev_out = "terminated"))
+T_KResult == /\ Ev.ev = "KResult" /\ Full /\ UNCHANGED <<scn, kq, remaining>> /\ Frozen
+             /\ IF SubSearchStopped
+                THEN Chk("C10 a stopped sub-search ends the query as terminated", Ev.outcome = "terminated") /\ accepted' = <<>> /\ kdone' = TRUE
+                ELSE IF ~Reachable
                 THEN Chk("C13 unreachable destination reported as no path", Ev.outcome = "nopath") /\ accepted' = <<>> /\ kdone' = TRUE
                 ELSE IF Ev.outcome = "ok" /\ kq.k >= 1 /\ AllWrapped /\ RoutesOK(RoutesOfEv, kq.k, kq.sim) /\ (Ev.n_accept_all < 0 \/ Ev.n_accept_all >= Len(Ev.routes))
                 THEN accepted' = RoutesOfEv /\ kdone' = TRUE
@@ -54,10 +62,17 @@ T_KResult == /\ Ev.ev = "KResult" /\ Enforce("C13") /\ UNCHANGED <<scn, kq, rema
                      /\ Chk("C13 no two routes more similar than the threshold", Dissimilar(RoutesOfEv, kq.sim))
                      /\ Chk("C13 accept-all returns at least as many routes", Ev.n_accept_all < 0 \/ Ev.n_accept_all >= Len(Ev.routes))
                      /\ FALSE
+(* Yen's algorithm under a limit against the same query without it: the limited run ends 'terminated' or returns
+   exactly the unlimited result (never a truncated or different one) *)
+T_KLimit == /\ Ev.ev = "KLimit" /\ UNCHANGED <<scn, kq, remaining, accepted, kdone>> /\ Frozen
+            /\ Chk("C10 a limited k-shortest-paths query is terminated or returns the unlimited result",
+                   IF Ev.unl_outcome = "ok" THEN Ev.lim_outcome = "terminated" \/ (Ev.lim_outcome = "ok" /\ Ev.lim_routes = Ev.unl_routes)
+                   ELSE IF Ev.unl_outcome = "nopath" THEN Ev.lim_outcome \in {"terminated", "nopath"}
+                   ELSE TRUE)
 TInit == /\ l = 1 /\ scn = Idle /\ queue = <<>> /\ g = <<>> /\ tree = <<>> /\ cur = 0 /\ lastE = 0 /\ todo = {} /\ iters = 0
          /\ outcome = "run" /\ pc = "idle" /\ reop = FALSE /\ exh = -1
          /\ kq = [k |-> 1, sim |-> [type |-> "accept_all", p |-> 0], alg |-> "svp", term |-> [type |-> "exact", n |-> 0]] /\ accepted = <<>> /\ remaining = {} /\ kdone = FALSE
-TNext == l <= Len(Rec) /\ l' = l + 1 /\ (T_KSetup \/ T_KResult \/ T_KResultRoutesOnly)
+TNext == l <= Len(Rec) /\ l' = l + 1 /\ (T_KSetup \/ T_KResult \/ T_KResultRoutesOnly \/ T_KLimit)
 TSpec == TInit /\ [][TNext]_tvars
 Track == TrackPos(l)
 NotStop == NotStopped(l)
